@@ -51,6 +51,15 @@ class Ctx:
             self.fresh.update(p.fresh)
         return self.progs[key]
 
+    def raw_prog(self, *pkgs):
+        """The same crates WITHOUT vocabulary normalisation (helpers not spliced into their callers): for rules about function
+        boundaries themselves (what a function's parameters keep alive while its body runs). Such rules must not name
+        functions - names in this view are whatever the analysed tree uses."""
+        key = ("raw",) + tuple(pkgs)
+        if key not in self.progs:
+            self.progs[key] = Program(pkgs, log=lambda *_a, **_k: None, repo=self.repo, variant=self.variant, raw=True)
+        return self.progs[key]
+
     def rule(self, rid, text, floor=None, shape_dependent=False):
         self.rules[rid] = {"text": text, "n": 0, "ok": 0, "floor": floor, "shape_dependent": shape_dependent}
 
